@@ -146,10 +146,11 @@ func (m *Multi) Clone() seq.Rower {
 
 // RevComp reverse complements the sequence.
 func (m *Multi) RevComp() {
-	end := m.End()
+	start, end := m.Start(), m.End()
 	for _, r := range m.Seq {
+		rEnd := r.End()
 		r.RevComp()
-		r.SetOffset(end - m.End())
+		r.SetOffset(start + end - rEnd)
 	}
 
 	return
@@ -157,10 +158,11 @@ func (m *Multi) RevComp() {
 
 // Reverse reverses the order of letters in the the sequence without complementing them.
 func (m *Multi) Reverse() {
-	end := m.End()
+	start, end := m.Start(), m.End()
 	for _, r := range m.Seq {
+		rEnd := r.End()
 		r.Reverse()
-		r.SetOffset(end - m.End())
+		r.SetOffset(start + end - rEnd)
 	}
 }
 
